@@ -223,7 +223,18 @@ impl MarkdownEventsReader {
     }
 
     fn start_tag(&mut self, tag: Tag, range: Range<usize>) {
-        self.after_html_block = false;
+        // (text after an html block may begin with emphasis, a link or an image: those start
+        // tags do not end the state, the inline they open is the first of the new paragraph)
+        if !matches!(
+            tag,
+            Tag::Emphasis
+                | Tag::Strong
+                | Tag::Strikethrough
+                | Tag::Link { .. }
+                | Tag::Image { .. }
+        ) {
+            self.after_html_block = false;
+        }
         match tag {
             Tag::Paragraph => {
                 self.push_block(DocumentBlock::Para(Para {
@@ -358,13 +369,23 @@ impl MarkdownEventsReader {
                 );
             }
             Tag::Image {
-                dest_url, title, ..
+                dest_url,
+                title,
+                link_type,
+                ..
             } => {
                 self.push_inline(
                     DocumentInline::Image(Image {
                         inlines: vec![],
                         target: Target {
-                            url: dest_url.to_string(),
+                            // ("![[image.png\|200]]" in a table cell: as for piped wiki links, the
+                            // backslash escapes the pipe for the table and is no part of the name)
+                            url: match link_type {
+                                LinkType::WikiLink { has_pothole: true } => {
+                                    dest_url.trim_end_matches('\\').to_string()
+                                }
+                                _ => dest_url.to_string(),
+                            },
                             title: title.to_string(),
                         },
                         attr: Default::default(),
